@@ -554,9 +554,9 @@ Proof.
   rewrite zrange_app, map_app, zrange_app, map_app.
   cbn [Z.add Z.of_nat zrange map app Pos.of_succ_nat Z.opp Z.pos_sub].
   rewrite !get_piece_length_spec by assumption. fold ps.
-  rewrite (get_piece_length_all d data pl Hpl Hlen). fold ps.
-  cbn [Z.leb Z.compare andb]. f_equal. f_equal.
-  assert (E : (0 + Z.of_nat (length ps) = lenZ ps)%Z) by (unfold lenZ; lia). rewrite E.
+  pose proof (get_piece_length_all d data pl Hpl Hlen) as Eall. cbv zeta in Eall. fold ps in Eall.
+  rewrite Eall. change (0 <=? -1)%Z with false. cbn [andb]. f_equal. f_equal.
+  fold (lenZ ps).
   destruct (Z.ltb_spec (lenZ ps) (lenZ ps)); [lia|]. rewrite andb_false_r.
   destruct (Z.ltb_spec (lenZ ps + 1) (lenZ ps)); [lia|]. rewrite andb_false_r. reflexivity.
 Qed.
